@@ -11,6 +11,7 @@ pub mod c10;
 pub mod c17;
 pub mod c18;
 pub mod c19;
+pub mod c19_real;
 pub mod c20;
 pub mod c11;
 pub mod c12;
